@@ -183,25 +183,30 @@ func (w *world) emitDriver() string {
 	} else {
 		fmt.Fprintf(&sb, "  pure ({ %s }, ts)\n\n", strings.Join(inits, ", "))
 	}
-	sb.WriteString("/-- `fn <name> <oracle answers> <arguments>` → tokens of the result -/\ndef fnDispatch (name : String) (ts : List String) : Option (List String) :=\n  match name with\n")
+	// one definition per function (a single match with all the bodies makes the compiler's work grow much faster
+	// than the number of functions), then the dispatch
+	var cases []string
 	for _, spec := range whitelist {
 		f := w.funcs[spec.key()]
 		if f.failed != "" {
 			continue
 		}
-		fmt.Fprintf(&sb, "  | %s => do\n    let (o, ts) ← decOra ts\n", leanStr(f.lean))
+		fmt.Fprintf(&sb, "def fnCall_%s (ts : List String) : Option (List String) := do\n  let (o, ts) ← decOra ts\n", f.lean)
 		var args []string
 		i := 0
 		for _, p := range f.params {
 			if p.kind == "ignored" || p.kind == "setter" || p.name == "_" || p.name == "" {
 				continue
 			}
-			fmt.Fprintf(&sb, "    let (a%d, ts) ← (dec ts : Option (%s × _))\n", i, p.leanTy)
+			fmt.Fprintf(&sb, "  let (a%d, ts) ← (dec ts : Option (%s × _))\n", i, p.leanTy)
 			args = append(args, fmt.Sprintf("a%d", i))
 			i++
 		}
-		fmt.Fprintf(&sb, "    if !ts.isEmpty then none else\n    pure (enc (%s o %s))\n", f.lean, strings.Join(args, " "))
+		fmt.Fprintf(&sb, "  if !ts.isEmpty then none else\n  pure (enc (%s o %s))\n\n", f.lean, strings.Join(args, " "))
+		cases = append(cases, fmt.Sprintf("  | %s => fnCall_%s ts\n", leanStr(f.lean), f.lean))
 	}
+	sb.WriteString("/-- `fn <name> <oracle answers> <arguments>` → tokens of the result -/\ndef fnDispatch (name : String) (ts : List String) : Option (List String) :=\n  match name with\n")
+	sb.WriteString(strings.Join(cases, ""))
 	sb.WriteString("  | _ => none\n\nend Gen\n")
 	return sb.String()
 }
